@@ -79,15 +79,66 @@ def _mutated_self_attrs(P, cls, skip):
     return names
 
 
-def havoc_value(v, name):
+def attr_store_summary(P, cls, name):
+    """Kinds / constants of every value stored to self.<name> anywhere in the class."""
+    kinds = set()
+    consts = set()
+    exact = True
+    for c in cls.repo_mro():
+        fns = list(c.methods.values())
+        for p in c.props.values():
+            fns += list(p.values())
+        for f in fns:
+            first = f.params()[0] if f.params() else None
+            for n in walk_no_nested(f.node):
+                if isinstance(n, ast.Assign):
+                    for t in n.targets:
+                        if isinstance(t, ast.Attribute) and isinstance(t.value, ast.Name) and t.value.id == first and t.attr == name:
+                            try:
+                                v = P.fold(n.value, f.module, c)
+                                from sa.values import kind_of
+                                k = kind_of(v)
+                                if k and isinstance(v, (type(None), bool, int, str, bytes)):
+                                    kinds |= k
+                                    consts.add(v)
+                                else:
+                                    exact = False
+                            except Exception:
+                                exact = False
+                elif isinstance(n, ast.AugAssign):
+                    t = n.target
+                    if isinstance(t, ast.Attribute) and isinstance(t.value, ast.Name) and t.value.id == first and t.attr == name:
+                        if isinstance(n.op, (ast.Add, ast.Sub)):
+                            consts = None if consts is not None else None
+                            kinds.add('+=')
+                        else:
+                            exact = False
+    return kinds, consts, exact
+
+
+def havoc_value(v, name, summary=None):
     """Over-approximation of every value an attribute may hold after an
     arbitrary earlier use of the object."""
+    if summary is not None and not isinstance(v, (ADict, AList, AObj, AStream)):
+        kinds, consts, exact = summary
+        if exact and kinds:
+            if '+=' in kinds:
+                base = kinds - {'+='}
+                if base <= {'int', 'bool'}:
+                    u = Unk('self.%s' % name, kinds=['int'], taint=['STATE'])
+                    u.havoc = True
+                    return u
+            elif consts:
+                u = Unk('self.%s' % name, kinds=kinds, taint=['STATE'])
+                u.in_sets.append(frozenset(consts))
+                u.havoc = True
+                return u
     if isinstance(v, ADict):
-        d = ADict(dict(v.items), open_=True, taint=frozenset(['INPUT']), name=v.name)
+        d = ADict(dict(v.items), open_=True, taint=frozenset(['STATE']), name=v.name)
         d.havoc = True
         return d
     if isinstance(v, AList):
-        l = AList([], elem=Unk('%s[]' % name, taint=['INPUT']))
+        l = AList([], elem=Unk('%s[]' % name, taint=['STATE']))
         l.havoc = True
         return l
     if isinstance(v, (AObj, AStream)):
@@ -138,9 +189,16 @@ class ReaderHarness(object):
                         u = Unk('options-bytes', kinds=['bytes'], taint=['INPUT'])
                         u.facts.add('truthy')
                         u.k1_options = sc
+                        u.group_of = (rx, m.groupindex[g])
+                        u.src = ('method', None, 'group', [g])
+                        u._pending_match = True
                         groups[g] = u
                         groups[m.groupindex[g]] = u
-                return AMatch(rx, groups, data)
+                am = AMatch(rx, groups, data)
+                for v in groups.values():
+                    if isinstance(v, Unk) and getattr(v, '_pending_match', False):
+                        v.src = ('method', am, 'group', v.src[3])
+                return am
             return 'unknown'
         I.regex_oracle = regex_oracle
 
@@ -152,6 +210,12 @@ class ReaderHarness(object):
                 h.facts.add('truthy')
                 h.facts.add('strip-truthy')
                 h.k1_record = script[i]
+                # post-condition of the read-ahead helper on its not-EOF exit
+                # (established structurally by C17-R1/R2): the result ends
+                # with the delimiter it was asked for
+                delim = args[1] if len(args) > 1 else kwargs.get(fi.params()[1] if len(fi.params()) > 1 else 'c')
+                if is_concrete(delim):
+                    h.suffix = concrete(delim)
                 st['header_values'].append(h)
                 I_.emit('k1-header', node, {'index': i, 'script': script[i]})
                 return (h, False)
@@ -185,10 +249,8 @@ class ReaderHarness(object):
         obj = I.instantiate(R.cls, [stream], {}, None)
         if self.havoc:
             for name in mutated_self_attrs(self.P, R.cls):
-                if name in obj.attrs:
-                    obj.attrs[name] = havoc_value(obj.attrs[name], name)
-                else:
-                    obj.attrs[name] = havoc_value(None, name)
+                summ = attr_store_summary(self.P, R.cls, name)
+                obj.attrs[name] = havoc_value(obj.attrs.get(name), name, summ)
         return obj
 
     def run(self, script, entry=None, eof_after=True, inject=None):
